@@ -576,6 +576,61 @@ def _flows_from(ctx, f, name: ast.Name, stmt, depth: int = 5) -> bool:
     return False
 
 
+def _input_array(ctx, g, e, p_inp: str):
+    """Is `e` the array parameter of create_input_node, unchanged - or reduced to fewer samples in a licensed way?
+    (True, None) / (False, reason | None).  A licensed reduction keeps the first and the last sample (`inp = inp[[0, -1]]`) under a
+    condition that establishes that the input does not change over TIME (axis 0): diff / ptp along axis=0, all rows equal to the
+    first row.  The same test along the default (last) axis compares the columns of one sample with each other, not the samples."""
+    if not (isinstance(e, ast.Name) and e.id == p_inp and comp_generator_of(e) is None):
+        return False, None
+    for d in ctx.rd(g).defs_reaching(e):
+        if isinstance(d, ast.arguments):
+            continue
+        v = assigned_value(d, e.id)
+        ends = isinstance(v, ast.Subscript) and isinstance(v.value, ast.Name) and v.value.id == p_inp \
+            and isinstance(v.slice, (ast.List, ast.Tuple)) and [ast.unparse(x) for x in v.slice.elts] == ["0", "-1"]
+        if not ends:
+            return False, None
+        ok_inner, why_inner = _input_array(ctx, g, v.value, p_inp)
+        if not ok_inner:
+            return False, why_inner
+        evidence_time, evidence_other = None, None
+        for anc in ancestors(d):
+            if not (isinstance(anc, ast.If) and any(contains(b, d) for b in anc.body)):
+                continue
+            conj = list(anc.test.values) if isinstance(anc.test, ast.BoolOp) and isinstance(anc.test.op, ast.And) else [anc.test]
+            for c in conj:
+                exprs = [c]
+                if isinstance(c, ast.Call):
+                    body = inline_helper_call(ctx, g, c)
+                    if body is not None:
+                        exprs.append(body)
+                for x in exprs:
+                    for n in ast.walk(x):
+                        if isinstance(n, ast.Call) and call_name(n) in ("diff", "ptp", "std", "var") and n.args \
+                                and isinstance(n.args[0], ast.Name) and n.args[0].id == p_inp:
+                            ax = {k.arg: k.value for k in n.keywords}.get("axis")
+                            if ax is None and call_name(n) == "diff" and len(n.args) >= 3:
+                                ax = n.args[2]
+                            if isinstance(ax, ast.Constant) and ax.value == 0:
+                                evidence_time = n
+                            else:
+                                evidence_other = n
+                        elif isinstance(n, ast.Compare) and len(n.ops) == 1 and isinstance(n.ops[0], (ast.Eq, ast.NotEq)):
+                            sides = [ast.unparse(n.left), ast.unparse(n.comparators[0])]
+                            if p_inp in sides and (f"{p_inp}[0]" in sides or f"{p_inp}[0, :]" in sides or f"{p_inp}[:1]" in sides):
+                                evidence_time = n
+        if evidence_time is not None:
+            continue
+        if evidence_other is not None:
+            return False, (f"`{norm(d)}` keeps only the first and the last sample when `{ast.unparse(evidence_other)}` finds no change - "
+                           f"but without `axis=0` that looks along the LAST axis: for an (N, n) input it compares the columns of one "
+                           f"sample with each other, so a time-varying input whose columns are equal is taken for constant and the "
+                           f"model is driven by a straight line between its end points")
+        return False, (f"`{norm(d)}` drops samples of the input without a test that it does not change over time (axis 0)")
+    return True, None
+
+
 def r3_time_grid(ctx, rid):
     g = ctx.repo.get_func(REL, "create_input_node")
     ctx.require(len(g.params) >= 4, f"{rid}: create_input_node signature changed: {g.params}")
@@ -618,14 +673,19 @@ def r3_time_grid(ctx, rid):
     stop_ok = _unmodified_param(ctx, g, stop, p_T)
     num_r = resolve_local(ctx, g, num)
     num_ok = (isinstance(num_r, ast.Subscript) and isinstance(num_r.value, ast.Attribute) and num_r.value.attr == "shape"
-              and _unmodified_param(ctx, g, num_r.value.value, p_inp) and isinstance(num_r.slice, ast.Constant) and num_r.slice.value == 0) \
-        or (isinstance(num_r, ast.Call) and call_name(num_r) == "len" and len(num_r.args) == 1 and _unmodified_param(ctx, g, num_r.args[0], p_inp))
+              and _input_array(ctx, g, num_r.value.value, p_inp)[0] and isinstance(num_r.slice, ast.Constant) and num_r.slice.value == 0) \
+        or (isinstance(num_r, ast.Call) and call_name(num_r) == "len" and len(num_r.args) == 1 and _input_array(ctx, g, num_r.args[0], p_inp)[0])
     ep = kw.get("endpoint")
     ep_ok = ep is None or (isinstance(ep, ast.Constant) and ep.value is True)
     facts = {"grid": norm(lin), "start_ok": start_ok, "stop_is_T": stop_ok, "num_is_len_inp": num_ok, "endpoint_included": ep_ok}
     if start_ok and stop_ok and num_ok and ep_ok:
         ctx.ok(rid, g, lin_st, f"the interpolation grid is linspace(0, {p_T}, {p_inp}.shape[0]): the samples are placed uniformly on [0, T]",
                facts, label="adaptive: time grid")
+    elif start_ok and stop_ok and ep_ok and any(_input_array(ctx, g, n_, p_inp)[1] for n_ in ast.walk(num_r)
+                                                if isinstance(n_, ast.Name) and n_.id == p_inp):
+        why_ = [w_ for w_ in (_input_array(ctx, g, n_, p_inp)[1] for n_ in ast.walk(num_r) if isinstance(n_, ast.Name) and n_.id == p_inp) if w_][0]
+        ctx.violation(rid, g, lin_st, f"the interpolation grid is built for an array whose samples were reduced without licence: {why_}",
+                      facts, label="adaptive: time grid")
     else:
         ctx.violation(rid, g, lin_st, f"the interpolation grid `{norm(lin)}` is not linspace(0, {p_T}, {p_inp}.shape[0]) with the end point "
                                       f"included: sample k would be placed at another time than k*T/(N-1), i.e. the input is stretched or "
@@ -707,11 +767,18 @@ def r3_time_grid(ctx, rid):
                 return None
         return fstring_template(kf)
 
+    array_reasons: List[str] = []
+
     def check_array_binding(table, eq_js, arg_text):
         """The variable named by the equation's array argument is declared with the unmodified array parameter as its value."""
         ent = table_lookup(table, lambda k: key_text(k, eq_js) == arg_text)
         val = entry_field(ent, "value") if ent is not None else None
-        return val is not None and _unmodified_param(ctx, g, val, p_inp)
+        if val is None:
+            return False
+        ok_, why_ = _input_array(ctx, g, val, p_inp)
+        if why_:
+            array_reasons.append(why_)
+        return ok_
 
     lhs_names = set()
     for block, bname in ((adaptive, "adaptive"), (fixed, "fixed-step")):
@@ -767,7 +834,9 @@ def r3_time_grid(ctx, rid):
                         why.append(f"`{fn}` is emitted for {'2-D' if two_d else '1-D'} input")
                     if not lhs_ok:
                         why.append("the assigned name is not the declared output variable")
-                    if not arr_ok:
+                    if not arr_ok and array_reasons:
+                        why.append(array_reasons[-1])
+                    elif not arr_ok:
                         why.append(f"`{args[2] if len(args) > 2 else '?'}` is not declared with the array that was passed in as its value")
                     ctx.violation(rid, g, st, "adaptive-step input equation is wrong: " + "; ".join(why), facts, label=label)
             else:
